@@ -65,7 +65,7 @@ verus! {
 //@trusted print_results_full
 //@trusted build_result_archive
 //@trusted load_bdd_bundle
-//@trusted get_extended_symbolic_graph
+//@verify get_extended_symbolic_graph
 //@verify load_formulae
 //@verify analyse_formulae
 //@verify analyse_formula
